@@ -17,9 +17,12 @@ import math
 import os
 import random
 import time
-from concurrent.futures import ProcessPoolExecutor
+import multiprocessing as mp
 
 import numpy as np
+
+import pennylane as qp            # imported before the fork pool starts: the workers inherit it
+from pennylane.core.operator import Operator2
 
 from .. import lib
 from ..lib import CheckResult, Violation
@@ -212,7 +215,6 @@ def _poly_fn(poly):
 
 def build(c):
     """-> (pre ops, the operator under test, post ops)"""
-    import pennylane as qp
     lay = c["lay"]
     ctl = None
     if c["nc"]:
@@ -273,12 +275,19 @@ def _has_mcm(ops):
     return any(walk(o) for o in ops)
 
 
+def _same_ops(a, b):
+    if len(a) != len(b):
+        return False
+    try:
+        return all(qp.equal(x, y) for x, y in zip(a, b))
+    except Exception:            # noqa: BLE001 - not comparable: treat as different and run both
+        return False
+
+
 def paths_of(c, only=None):
     """-> list of (path name, ops or None, matrix or None, error string)"""
-    import pennylane as qp
-    from pennylane.core.operator import Operator2
     pre, op, post = build(c)
-    out = [("device", pre + [op] + post, None)]
+    out = [["device", pre + [op] + post, None]]
     seen = []
     try:
         with qp.queuing.QueuingManager.stop_recording():
@@ -286,7 +295,7 @@ def paths_of(c, only=None):
     except Exception:            # noqa: BLE001 - the device path will show the error
         dflt = None
     if dflt is not None:
-        seen.append([repr(o) for o in dflt])
+        seen.append(list(dflt))
     try:
         rules = list(qp.list_decomps(op))
     except Exception:            # noqa: BLE001
@@ -308,10 +317,12 @@ def paths_of(c, only=None):
         except Exception as e:   # noqa: BLE001
             out.append((f"rule:{r.name}", None, f"{type(e).__name__}: {e}"))
             continue
-        sig = [repr(o) for o in ops]
-        if sig in seen and c["t"] not in ("OutPoly",):
-            continue             # same expansion as the device default: already covered
-        seen.append(sig)
+        dup = next((j for j, other in enumerate(seen) if _same_ops(ops, other)), None)
+        if dup is not None:
+            if dup == 0 and dflt is not None and out[0][0] == "device":
+                out[0][0] = f"device={r.name}"          # the device default is this rule
+            continue             # same expansion as the device default / an earlier rule: already covered
+        seen.append(ops)
         out.append((f"rule:{r.name}", pre + ops + post, None))
     if getattr(op, "has_matrix", False) and not pre:
         out.append(("matrix", op, None))
@@ -339,7 +350,6 @@ def _read(rows, N, in_idx):
 
 
 def _simulate(ops, N, states):
-    import pennylane as qp
     dev = qp.device("default.qubit")
     st = states if states.shape[0] > 1 else states[0]
     tape = qp.tape.QuantumScript([qp.StatePrep(st, wires=range(N))] + list(ops), [qp.state()])
@@ -349,7 +359,6 @@ def _simulate(ops, N, states):
 
 def _probs_only(ops, N, i):
     """paths with mid-circuit measurements: basis input, exact probabilities on the N wires"""
-    import pennylane as qp
     dev = qp.device("default.qubit")
     bits = [(i >> (N - 1 - w)) & 1 for w in range(N)]
     tape = qp.tape.QuantumScript([qp.BasisState(np.array(bits), wires=range(N))] + list(ops), [qp.probs(wires=range(N))])
@@ -361,7 +370,6 @@ def _probs_only(ops, N, i):
 def run_config(job):
     """worker: one configuration, all paths -> list of trace records (without the config)"""
     cid, c, ins, singles = job
-    import pennylane as qp
     t0 = time.process_time()
     N = c["N"]
     recs = []
@@ -445,7 +453,6 @@ def _tlc_cfg(c):
 
 def _outside_preconditions(rng):
     """constructions outside the documented preconditions: must raise or are skipped (evidence only)"""
-    import pennylane as qp
     tries = [
         ("Adder mod > 2^n", lambda: qp.Adder(1, [0, 1], 5, [2, 3])),
         ("Adder mod != 2^n without work wires", lambda: qp.Adder(1, [0, 1], 3)),
@@ -502,8 +509,8 @@ def run(tier, seed):
     jobs.sort(key=lambda j: -(len(j[2]) << j[1]["N"]))            # heavy ones first
     nproc = int(os.environ.get("VERIF_C56_PROCS", "8"))
     results, cpu = {}, 0.0
-    with ProcessPoolExecutor(max_workers=nproc) as ex:
-        for cid, recs, t in ex.map(run_config, jobs, chunksize=1):
+    with mp.get_context("fork").Pool(nproc) as pool:
+        for cid, recs, t in pool.imap_unordered(run_config, jobs, chunksize=1):
             results[cid] = recs
             cpu += t
     traces, meta = [], []
